@@ -170,6 +170,14 @@ func runStorm(c *stormCase, rec *evid.Recorder) (*stormResult, *evid.Fail) {
 			if q.Local != "" {
 				continue
 			}
+			if q.Kind == "execute" && !q.UnknownID && q.Decoy {
+				dtok := nextToken()
+				e.Cluster.ForceID(prepTokenOf(dtok), q.Token)
+				e.Cluster.ForceID(prepTokenOf(q.Token), q.Token)
+				if _, err := runners[ci].prepare("SELECT * FROM ks1.t WHERE tokc = '" + prepTokenOf(dtok) + "'"); err != nil {
+					return nil, evid.Failf("harness-prepare", "prepare (decoy): %v", err)
+				}
+			}
 			if q.Kind == "execute" && !q.UnknownID {
 				if _, err := runners[ci].prepare(prepText(q.Stmt, q.Token)); err != nil {
 					return nil, evid.Failf("harness-prepare", "prepare: %v", err)
